@@ -48,12 +48,12 @@ def WaitLogin (ρ : Role) (p : Pat) (lits : List String) : Sess := .call "WaitLo
 
 def stripStdPromptBody : Sess :=
   -- the prompt has just been matched by waitPrompt, so it is found again
-  .ite .never "loc == nil" (.abort ["Missing prompt '%s' in response:\n'%v'", "_", "_"]) .skip ;;
+  .ite .never "¬$FindStringIndex != nil" (.abort ["Missing prompt '%s' in response:\n'%v'", "_", "_"]) .skip ;;
   .ret .none ["_"]
 def StripStdPrompt : Sess := .call "StripStdPrompt" ["_"] stripStdPromptBody
 
 def stripEchoBody : Sess :=
-  .ite .echoBad "len(s) < len(cmd) || s[:len(cmd)] != cmd"
+  .ite .echoBad "len($p2) < len($p1) || $p2[:len($p1)] != $p1"
     (.abort ["Got unexpected echo in response to '%s':\n%v", "_", "_"]) .skip ;;
   .ret .none ["_"]
 def StripEcho : Sess := .call "StripEcho" ["_", "_"] stripEchoBody
@@ -75,24 +75,24 @@ def GetCmdOutput (ρ : Role) (t : Txt) (lits : List String) : Sess :=
   .call "GetCmdOutput" lits (getCmdOutputBody ρ t)
 
 def closeBody : Sess :=
-  .ite (.not .never) "c.con != nil" (.send .cleanup (.litNl "exit")) .skip
+  .ite (.not .never) "$r.con != nil" (.send .cleanup (.litNl "exit")) .skip
 def Close : Sess := .call "Close" [] closeBody
 
-def ciscoCloseConnectionBody : Sess := .ite (.not .never) "c != nil" Close .skip
+def ciscoCloseConnectionBody : Sess := .ite (.not .never) "$r.Conn != nil" Close .skip
 
 /-! ## pkg/asa -/
 
 def asaCheckBody (ρ : Role) : Sess :=
   GetOutput ρ ;; StripEcho ;;
-  .ite .outNonEmpty "out != \"\""
-    (.ite .outInvalid "!isValidOutput(ci, out)"
+  .ite .outNonEmpty "$GetOutput != \"\""
+    (.ite .outInvalid "¬isValidOutput($c1, $GetOutput)"
       (.abort ["Got unexpected output from '%s':\n%s", "_", "_"])
       (.ite .outWarn "" (.mark .logWarn) .skip))
     .skip
 def asaCheck (ρ : Role) : Sess := .call "check" ["_"] (asaCheckBody ρ)
 
 def asaCmdBody (ρ : Role) (t : Txt) : Sess :=
-  Send ρ t ;; asaCheck ρ ;; .ite .joined "c2 != \"\"" (asaCheck ρ) .skip
+  Send ρ t ;; asaCheck ρ ;; .ite .joined "$Cut.2 != \"\"" (asaCheck ρ) .skip
 def asaCmd (ρ : Role) (t : Txt) (lits : List String) : Sess := .call "cmd" lits (asaCmdBody ρ t)
 
 def asaApplyBody : Sess :=
@@ -100,7 +100,7 @@ def asaApplyBody : Sess :=
   .forEach (asaCmd .change .cur ["_"]) ;;
   asaCmd .setup (.lit "end") ["end"] ;;
   (GetCmdOutput .save (.lit "write memory") ["write memory"] ;;
-   .ite (.not (.flag .okMark)) "!strings.Contains(out, \"[OK]\")"
+   .ite (.not (.flag .okMark)) "¬strings.Contains($GetCmdOutput, \"[OK]\")"
      (.abort ["Command 'write memory' failed, missing [OK] in output:\n%s", "_"]) .skip) ;;
   .ret .nil ["nil"]
 
@@ -112,35 +112,35 @@ def ciscoWaitPrompt (t : Txt) (lits : List String) : Sess := .call "waitPrompt" 
 /-- cisco.LoginEnable (shared by ASA and IOS). -/
 def ciscoLoginEnableBody : Sess :=
   WaitLogin .login (.special [.password, .yesNo]) ["(?i)password:|\\(yes/no.*\\)\\?"] ;;
-  .ite (.flag .yesNo) "strings.HasSuffix(out, \"?\")"
+  .ite (.flag .yesNo) "strings.HasSuffix($WaitLogin, \"?\")"
     (IssueCmd .login (.lit "yes") (.special [.password]) ["yes", "(?i)password:"]) .skip ;;
   ciscoWaitPrompt .secret ["_", ">"] ;;
-  .ite (.flag .gt) "waitPrompt(pass, \">\")"
+  .ite (.flag .gt) "waitPrompt($p1, \">\")"
     (ciscoWaitPrompt (.lit "enable") ["enable", "#"] ;;
-     .ite (.not (.flag .hash)) "!waitPrompt(\"enable\", \"#\")"
+     .ite (.not (.flag .hash)) "¬waitPrompt(\"enable\", \"#\")"
        -- the password is sent only if the device asks for it; without `#` afterwards: abort
        (.when (.flag .password) (ciscoWaitPrompt .secret ["_", "#"]) ;;
         .ite (.not (.flag .hash))
-          "!strings.HasSuffix(strings.ToLower(out), \"password:\") || !waitPrompt(pass, \"#\")"
+          "!strings.HasSuffix(strings.ToLower($WaitLogin), \"password:\") || !waitPrompt($p1, \"#\")"
           (.abort ["Authentication for enable mode failed"]) .skip)
        .skip)
-    (.ite (.not (.flag .hash)) "!strings.HasSuffix(out, \"#\")" (.abort ["Authentication failed"]) .skip) ;;
+    (.ite (.not (.flag .hash)) "¬strings.HasSuffix($WaitLogin, \"#\")" (.abort ["Authentication failed"]) .skip) ;;
   IssueCmd .login (.lit "") .std ["", "#[ ]?"] ;;
   op "checkBanner" ["_", "_"]
 def ciscoLoginEnable : Sess := .call "LoginEnable" ["_", "_"] ciscoLoginEnableBody
 
 def asaSetTerminal : Sess :=
   GetCmdOutput .read (.lit "sh pager") ["sh pager"] ;;
-  .ite (.not (.flag .noPager)) "!strings.Contains(out, \"no pager\")"
+  .ite (.not (.flag .noPager)) "¬strings.Contains($GetCmdOutput, \"no pager\")"
     (SendCmd .setup (.lit "terminal pager 0") ["terminal pager 0"]) .skip ;;
   GetCmdOutput .read (.lit "sh term") ["sh term"] ;;
-  .ite (.not (.flag .w511)) "!strings.Contains(out, \"511\")"
+  .ite (.not (.flag .w511)) "¬strings.Contains($GetCmdOutput, \"511\")"
     (SendCmd .setup (.lit "configure terminal") ["configure terminal"] ;;
      SendCmd .setup (.lit "terminal width 511") ["terminal width 511"] ;;
      SendCmd .setup (.lit "end") ["end"]) .skip
 
 def checkNameAbort : Sess :=
-  .ite (.not (.flag .nameOk)) "name != out" (.abort ["Wrong device name: %q, expected: %q", "_", "_"]) .skip
+  .ite (.not (.flag .nameOk)) "$p1 != $GetCmdOutput" (.abort ["Wrong device name: %q, expected: %q", "_", "_"]) .skip
 
 /-- the prologue of the console backends' LoadDevice: credentials and the ssh process -/
 def consolePrologue : Sess :=
@@ -168,7 +168,7 @@ def asaLoadDevice : Sess :=
 def iosSendReloadCmdBody (withDo : Bool) : Sess :=
   IssueCmd .setup (.lit (if withDo then "do reload in 2" else "reload in 2")) (.special [.saveAsk, .confirm])
     ["_", "\\[yes\\/no\\]:\\ |\\[confirm\\]"] ;;
-  .ite (.flag .saveAsk) "strings.Contains(out, \"[yes/no]\")"
+  .ite (.flag .saveAsk) "strings.Contains($r.Conn.IssueCmd($Sprintf, `\\[yes\\/no\\]:\\ |\\[confirm\\]`), \"[yes/no]\")"
     (IssueCmd .setup (.lit "n") (.special [.confirm]) ["n", "\\[confirm\\]"]) .skip ;;
   SendCmd .setup (.lit "") [""]
 def iosSendReloadCmd (withDo : Bool) : Sess :=
@@ -194,27 +194,27 @@ def iosPrepareDevice : Sess := .call "prepareDevice" [] iosPrepareDeviceBody
 
 def iosCheckBody (ρ : Role) : Sess :=
   GetOutput ρ ;; op "stripReloadBanner" ["_"] ;; StripEcho ;;
-  .ite .outNonEmpty "out != \"\""
-    (.ite .outInvalid "!isValidOutput(ci, out)"
+  .ite .outNonEmpty "$GetOutput != \"\""
+    (.ite .outInvalid "¬isValidOutput($c1, $GetOutput)"
       (.abort ["Got unexpected output from '%s':\n%s", "_", "_"])
       (.ite .outWarn "" (.mark .logWarn) .skip))
     .skip
 def iosCheck (ρ : Role) : Sess := .call "check" ["_"] (iosCheckBody ρ)
 
 def iosCmdBody (ρ : Role) (t : Txt) : Sess :=
-  Send ρ t ;; iosCheck ρ ;; .ite .joined "c2 != \"\"" (iosCheck ρ) .skip ;;
-  .ite .never "needReload" iosExtendReload .skip
+  Send ρ t ;; iosCheck ρ ;; .ite .joined "$Cut.2 != \"\"" (iosCheck ρ) .skip ;;
+  .ite .never "$const" iosExtendReload .skip
 def iosCmd (ρ : Role) (t : Txt) (lits : List String) : Sess := .call "cmd" lits (iosCmdBody ρ t)
 
 def iosWriteMemBody : Sess :=
   .setCtr 2 ;;
   .loopN 3 (
     IssueCmd .save (.lit "write memory") (.stdOr [.confirm]) ["write memory", "#[ ]?|\\[confirm\\]"] ;;
-    .ite (.flag .overwrite) "strings.Contains(out, \"Overwrite the previous NVRAM configuration\")"
+    .ite (.flag .overwrite) "strings.Contains($IssueCmd, \"Overwrite the previous NVRAM configuration\")"
       (GetCmdOutput .save (.lit "") [""]) .skip ;;
-    .ite (.flag .okMark) "strings.Contains(out, \"[OK]\")" (.ret .none []) .skip ;;
-    .ite (.flag .openFailed) "strings.Contains(out, \"startup-config file open failed\")"
-      (.ite .ctrPos "retries > 0" (.decCtr ;; .cont) .skip ;;
+    .ite (.flag .okMark) "strings.Contains($IssueCmd, \"[OK]\")" (.ret .none []) .skip ;;
+    .ite (.flag .openFailed) "strings.Contains($IssueCmd, \"startup-config file open failed\")"
+      (.ite .ctrPos "$const > 0" (.decCtr ;; .cont) .skip ;;
        .abort ["write mem: startup-config open failed - giving up"]) .skip ;;
     .abort ["write mem: unexpected result: %s", "_"])
 def iosWriteMem : Sess := .call "writeMem" [] iosWriteMemBody
@@ -235,7 +235,7 @@ def iosLogVersionBody : Sess := GetCmdOutput .read (.lit "sh ver") ["sh ver"]
 /-- the name is taken from everything in front of the prompt: a garbled echo spoils it too -/
 def iosCheckDeviceNameBody : Sess :=
   IssueCmd .read (.lit "") .std ["", "#[ ]?"] ;;
-  .ite (.or (.not (.flag .nameOk)) .echoBad) "name != out" (.abort ["Wrong device name: %q, expected: %q", "_", "_"]) .skip
+  .ite (.or (.not (.flag .nameOk)) .echoBad) "$p1 != $TrimSpace" (.abort ["Wrong device name: %q, expected: %q", "_", "_"]) .skip
 
 def iosLoadDevice : Sess :=
   consolePrologue ;;
@@ -252,13 +252,13 @@ def iosLoadDevice : Sess :=
 
 def linuxCheckBody (ρ : Role) : Sess :=
   GetOutput ρ ;; StripEcho ;;
-  .ite .outNonEmpty "out != \"\"" (.abort ["Got unexpected output from '%s':\n%s", "_", "_"]) .skip
+  .ite .outNonEmpty "$GetOutput != \"\"" (.abort ["Got unexpected output from '%s':\n%s", "_", "_"]) .skip
 def linuxCheck (ρ : Role) : Sess := .call "check" ["_"] (linuxCheckBody ρ)
 
 def linuxCmdBody (ρ : Role) (t : Txt) : Sess :=
-  Send ρ t ;; linuxCheck ρ ;; .ite .joined "c2 != \"\"" (linuxCheck ρ) .skip ;;
+  Send ρ t ;; linuxCheck ρ ;; .ite .joined "$Cut.2 != \"\"" (linuxCheck ρ) .skip ;;
   GetCmdOutput .probe (.lit "echo $?") ["echo $?"] ;;
-  .ite (.not (.flag .status0)) "s.conn.GetCmdOutput(\"echo $?\") != \"0\\n\""
+  .ite (.not (.flag .status0)) "$r.conn.GetCmdOutput(\"echo $?\") != \"0\\n\""
     (.abort ["%s failed (exit status)", "_"]) .skip
 def linuxCmd (ρ : Role) (t : Txt) (lits : List String) : Sess := .call "cmd" lits (linuxCmdBody ρ t)
 
@@ -274,7 +274,7 @@ def linuxWriteStartup (what : String) : Sess := .call "writeStartup" ["_", "_", 
 
 def linuxFindRestoreBody : Sess :=
   GetCmdOutput .read (.lit "which iptables-restore") ["which iptables-restore"] ;;
-  .ite (.not (.flag .restorePath)) "!strings.HasSuffix(cmd, \"iptables-restore\")"
+  .ite (.not (.flag .restorePath)) "¬strings.HasSuffix($TrimSpace, \"iptables-restore\")"
     (.abort ["Can't find path of 'iptables-restore'"]) .skip ;;
   .ret .none ["_"]
 def linuxFindRestore : Sess := .call "findIPTablesRestoreCmd" [] linuxFindRestoreBody
@@ -284,27 +284,27 @@ def linuxWriteStartupRoutingBody : Sess := linuxWriteStartup "routing"
 
 def linuxApplyBody : Sess :=
   .forEach (linuxCmd .change .cur ["_"]) ;;
-  .ite .ipt "ch.iptables != \"\""
+  .ite .ipt "$expr.iptables != \"\""
     (.call "writeStartupIPTables" ["_", "_"] linuxWriteStartupIPTablesBody ;;
      linuxCmd .change (.lit "chmod a+x /etc/network/packet-filter.new") ["_"] ;;
      linuxCmd .change (.lit "/etc/network/packet-filter.new") ["_"] ;;
      linuxCmd .change (.lit "mv -f /etc/network/packet-filter.new /etc/network/packet-filter") ["_"]) .skip ;;
-  .ite .planNonEmpty "len(ch.routes) != 0"
+  .ite .planNonEmpty "len($expr.routes) != 0"
     (.call "writeStartupRouting" ["_", "_"] linuxWriteStartupRoutingBody) .skip ;;
   .ret .nil ["nil"]
 
 def linuxLoginEnableBody : Sess :=
   WaitLogin .login (.special [.hash, .password, .yesNo]) ["_"] ;;
-  .ite (.flag .yesNo) "strings.HasSuffix(out, \"?\")" (IssueCmd .login (.lit "yes") (.special [.hash, .password]) ["yes", "_"]) .skip ;;
-  .ite (.flag .password) "strings.HasSuffix(out, \"word:\")" (IssueCmd .login .secret (.special [.hash, .password]) ["_", "_"]) .skip ;;
-  .ite (.flag .password) "strings.HasSuffix(out, \"word:\")" (.abort ["Authentication failed"]) .skip ;;
+  .ite (.flag .yesNo) "strings.HasSuffix($WaitLogin, \"?\")" (IssueCmd .login (.lit "yes") (.special [.hash, .password]) ["yes", "_"]) .skip ;;
+  .ite (.flag .password) "strings.HasSuffix($WaitLogin, \"word:\")" (IssueCmd .login .secret (.special [.hash, .password]) ["_", "_"]) .skip ;;
+  .ite (.flag .password) "strings.HasSuffix($WaitLogin, \"word:\")" (.abort ["Authentication failed"]) .skip ;;
   IssueCmd .setup (.lit "PS1=router#") .std ["PS1=router#", "_"]
 
 def linuxLogVersionBody : Sess :=
   GetCmdOutput .read (.lit "uname -r") ["uname -r"] ;; GetCmdOutput .read (.lit "uname -m") ["uname -m"]
 def linuxCheckDeviceNameBody : Sess := GetCmdOutput .read (.lit "hostname -s") ["hostname -s"] ;; checkNameAbort
 def linuxCheckBannerBody : Sess :=
-  .ite .never "cfg.CheckBanner == nil" (.ret .none []) .skip ;;
+  .ite .never "¬$p1.CheckBanner != nil" (.ret .none []) .skip ;;
   GetCmdOutput .read (.lit "grep 'NetSPoC' /etc/issue") ["_"] ;; .assumeBanner
 def linuxGetDeviceIPTablesBody : Sess :=
   GetCmdOutput .read (.lit "iptables-save") ["iptables-save"] ;;
